@@ -297,6 +297,7 @@ impl ForkServer {
         msg.push_str(&format!("EINTR {}\nNOINSECURE {}\nCHUNK {}\n", plan.eintr, u8::from(plan.no_insecure), plan.chunk));
         msg.push_str(&format!("SKEW_HEAP {}\nSKEW_MMAP {}\n", plan.skew_heap, plan.skew_mmap));
         msg.push_str(&format!("CLOCK {} {}\nPID {}\nRSS {}\n", plan.clock_base, plan.clock_step_ns, plan.pid, plan.rss_kib));
+        msg.push_str(&format!("WAIT {}\nREAD {} {}\n", plan.wait_ppm, plan.read_chunk, plan.read_eintr));
         if !plan.stall.is_empty() {
             msg.push_str(&format!("STALL {}\n", plan.stall.iter().map(ToString::to_string).collect::<Vec<_>>().join(",")));
         }
@@ -451,6 +452,11 @@ pub fn launch_program(
     cmd.env("GRAMSIM_CLOCK_STEP", plan.clock_step_ns.to_string());
     cmd.env("GRAMSIM_PID", plan.pid.to_string());
     cmd.env("GRAMSIM_RSS", plan.rss_kib.to_string());
+    cmd.env("GRAMSIM_WAIT_PPM", plan.wait_ppm.to_string());
+    if plan.read_chunk > 0 {
+        cmd.env("GRAMSIM_READ_CHUNK", plan.read_chunk.to_string());
+        cmd.env("GRAMSIM_READ_EINTR", plan.read_eintr.to_string());
+    }
     if !plan.stall.is_empty() {
         cmd.env("GRAMSIM_STALL", plan.stall.iter().map(ToString::to_string).collect::<Vec<_>>().join(","));
     }
